@@ -2,6 +2,7 @@ package props
 
 import (
 	"fmt"
+	"strings"
 	"go/token"
 	"go/types"
 
@@ -40,6 +41,8 @@ func checkC07(c *chk.Ctx) {
 	ruleR07c(h)
 	ruleR06c(h, "R07d")
 	ruleQueuedContinuationsUnderLock(h, "R07e")
+	ruleReusedDecodeTargetReset(h, "R07f")
+	ruleR06dInto(h, "R07g", false)
 }
 
 func ruleR07a(h *H, rule string) {
@@ -182,6 +185,51 @@ func ruleR07a(h *H, rule string) {
 	}
 	if extra == 0 {
 		h.OK(rule, "no other batch in the apply closure", "", fmt.Sprintf("%d reachable functions inspected", len(fns)))
+	}
+	// engine level: inside the apply closure the storage engine's batch is only committed by the
+	// WriteBatch.Commit implementation and only created by the KV.NewWriteBatch implementation
+	commitImpl := map[*ssa.Function]bool{}
+	for _, f := range h.P.ImplMethods("server/kv", "WriteBatch", "Commit") {
+		commitImpl[f] = true
+	}
+	newImpl := map[*ssa.Function]bool{}
+	for _, f := range h.P.ImplMethods("server/kv", "KV", "NewWriteBatch") {
+		newImpl[f] = true
+	}
+	engine := 0
+	for _, f := range fns {
+		ir.Instrs(f, func(in ssa.Instruction) {
+			c := ir.CallOf(in)
+			if c == nil {
+				return
+			}
+			sf := c.StaticCallee()
+			if sf == nil || sf.Signature.Recv() == nil {
+				return
+			}
+			pk := ""
+			if o := sf.Object(); o != nil && o.Pkg() != nil {
+				pk = o.Pkg().Path()
+			}
+			if !strings.HasPrefix(pk, "github.com/cockroachdb/pebble") {
+				return
+			}
+			recvName := namedName(sf.Signature.Recv().Type())
+			switch {
+			case recvName == "Batch" && (sf.Name() == "Commit" || sf.Name() == "Apply") && !commitImpl[f]:
+				engine++
+				h.Bad(rule, "engine commit in "+ir.FuncName(f), h.pos(in), "the storage engine's batch is committed inside "+ir.FuncName(f)+", which runs while a request is being applied: the request's effects reach the DB in more than one atomic step (a crash in between leaves part of the entry applied with the old commit offset)")
+			case recvName == "DB" && (sf.Name() == "NewBatch" || sf.Name() == "NewIndexedBatch") && !newImpl[f]:
+				engine++
+				h.Bad(rule, "engine batch created in "+ir.FuncName(f), h.pos(in), "a storage-engine batch is created inside "+ir.FuncName(f)+" while a request is being applied: its effects are not part of the request's atomic batch")
+			case recvName == "DB" && (sf.Name() == "Set" || sf.Name() == "Delete" || sf.Name() == "DeleteRange" || sf.Name() == "Apply" || sf.Name() == "Merge" || sf.Name() == "SingleDelete"):
+				engine++
+				h.Bad(rule, "direct engine write in "+ir.FuncName(f), h.pos(in), "the storage engine is written directly ("+sf.Name()+") while a request is being applied, outside the request's atomic batch")
+			}
+		})
+	}
+	if engine == 0 {
+		h.OK(rule, "engine batch lifecycle in the apply closure", "", "the engine batch is only created by KV.NewWriteBatch and only committed by WriteBatch.Commit")
 	}
 	// the batch is an indexed batch (reads inside the request see its own writes)
 	for _, f := range h.P.ImplMethods("server/kv", "KV", "NewWriteBatch") {
